@@ -458,6 +458,12 @@ func C17(ctx *core.Ctx, r *core.Report) {
 	c17KeyMatchConjunction(ctx, r)
 	c17CompareSignOnly(ctx, r)
 	noValueTextEquality(ctx, r)
+	{
+		// lookups by key answer from a sorted index that must be rebuilt after every change of the container (C03/C18's rule)
+		sub := core.NewReport("C18", r.Tier, r.Root, r.Seed)
+		C18(ctx, sub)
+		r.Borrow(sub, "cache-dropped-on-mutation")
+	}
 }
 
 // c17TupleBound: in val.CompareVals every index into the second tuple must be
